@@ -416,6 +416,88 @@ fn run_wide<const N: usize>(case: &WideCase) -> CaseResult {
     Ok(classes)
 }
 
+/// the queue's metrics go to the metrics facade's CURRENT recorder (`metrics_recorder_global`): the
+/// overflow counter must be credited to whatever recorder is current for the appending code at the
+/// moment of each discard
+#[derive(Clone, Debug, Serialize, Deserialize)]
+pub struct GlobalRecCase {
+    pub capacity: u8,
+    pub boxed: bool,
+    /// phases: (recorder index 0..3, number of appends)
+    pub phases: Vec<(u8, u8)>,
+}
+
+pub fn check_global_recorder(case: &GlobalRecCase) -> CaseResult {
+    let cap = case.capacity.clamp(1, 12) as usize;
+    let log = Arc::new(EventLog::default());
+    let gate = Gate::new(false);
+    let stream = BqStream::new(vec![], gate.clone(), log.clone());
+    let recs: Vec<metrics_util_020::debugging::DebuggingRecorder> = (0..3).map(|_| metrics_util_020::debugging::DebuggingRecorder::new()).collect();
+    let b = BackgroundQueueBuilder::new()
+        .capacity(cap)
+        .flush_interval(Duration::from_millis(1))
+        .metric_name("vq")
+        .metrics_recorder_global::<dyn metrics_024::Recorder>();
+    let (q, handle) = if case.boxed {
+        let (q, h) = b.build_boxed(stream);
+        (super::c01::Q::Boxed(q), h)
+    } else {
+        let (q, h) = b.build::<TestE>(stream);
+        (super::c01::Q::Typed(q), h)
+    };
+    // first fill the ring beyond doubt (the stalled writer holds at most one entry): from then on
+    // every append discards exactly one entry
+    let mut seq = 0u32;
+    let mut append = |n: usize| {
+        for _ in 0..n {
+            q.append(TestE(Id { p: 0, s: seq }));
+            seq += 1;
+        }
+    };
+    metrics_024::with_local_recorder(&recs[2], || append(cap + 2));
+    // the writer takes one entry at a moment of its choosing and then waits at the shut gate for
+    // good; one more append afterwards and the ring is full whatever that moment was
+    if !gate.wait_blocked(Duration::from_secs(5)) {
+        gate.open();
+        drop(q);
+        let _ = no_panic("queue-shutdown", || handle.shut_down());
+        return Ok(vec!["inconclusive-timeout"]);
+    }
+    metrics_024::with_local_recorder(&recs[2], || append(1));
+    let mut expected = [0u64; 3];
+    for (r, n) in &case.phases {
+        let r = *r as usize % 2;
+        metrics_024::with_local_recorder(&recs[r], || append(*n as usize));
+        expected[r] += *n as u64;
+    }
+    let total = seq as usize;
+    gate.open();
+    drop(q);
+    no_panic("queue-shutdown", || handle.shut_down())?;
+    let delivered = log.count(|e| matches!(e, Ev::Next(..)));
+    let counts: Vec<u64> = recs.iter().map(overflow_count).collect();
+    for r in 0..2 {
+        vensure!(
+            counts[r] == expected[r],
+            "overflow:counter-credited-to-the-wrong-recorder",
+            "queue built with metrics_recorder_global, capacity {cap}, ring full: {} entries were appended (and as many discarded) while recorder {r} was the current one, but its metrique_queue_overflows counter reads {} (all recorders: {counts:?}, expected for 0/1: {expected:?})",
+            expected[r],
+            counts[r]
+        );
+    }
+    vensure!(
+        counts.iter().sum::<u64>() as usize == total - delivered,
+        "overflow:counter-wrong",
+        "{total} appended, {delivered} delivered, overflow counters {counts:?}"
+    );
+    let mut classes: Classes = vec![];
+    if expected[0] > 0 && expected[1] > 0 {
+        classes.push("discards-under-two-different-current-recorders");
+        classes.push("nt");
+    }
+    Ok(classes)
+}
+
 pub fn check_wide(case: &WideCase) -> CaseResult {
     match case.width % 2 {
         0 => run_wide::<4096>(case),
@@ -455,6 +537,24 @@ pub fn run(ctx: &mut Ctx) {
                 })
         },
         check,
+    );
+    ctx.explore(
+        SubCfg::new(
+            "c09-global-recorder",
+            "queue built with metrics_recorder_global (typed / boxed, capacity 1-12), writer stalled, ring filled; then 1-6 phases of 0-30 appends, each phase run with one of two DebuggingRecorders installed as the facade's current recorder (with_local_recorder). Oracle: every discard is credited to the recorder that was current when it happened - each recorder's metrique_queue_overflows equals the appends of its phases, the sum equals the losses. Non-trivial = discards under both recorders",
+            if q { 300 } else { 6_000 },
+        )
+        .threads(ctx.tier.pick(4, 8))
+        .shrink_iters(40)
+        .mandatory(&["discards-under-two-different-current-recorders"]),
+        || {
+            (1u8..12, any::<bool>(), prop::collection::vec((0u8..2, 0u8..30), 1..7)).prop_map(|(capacity, boxed, phases)| GlobalRecCase {
+                capacity,
+                boxed,
+                phases,
+            })
+        },
+        check_global_recorder,
     );
     // memory-heavy (up to ~100 MiB per case): few cases, one at a time
     ctx.explore(
